@@ -20,6 +20,7 @@ import BB.Oracle.BufConc
 import BB.Oracle.CleanGate
 import BB.Oracle.Lifecycle
 import BB.Oracle.Exclusive
+import BB.Oracle.Caster
 
 open BB.Oracle
 
@@ -39,7 +40,9 @@ def families : List (String × Fam) := [
   ("bufconc", BufConcFam.fam),
   ("cleangate", CleanGateFam.fam),
   ("lifecycle", LifecycleFam.fam),
-  ("exclusive", ExclusiveFam.fam)
+  ("exclusive", ExclusiveFam.fam),
+  ("casterword", CasterWordFam.fam),
+  ("caster", CasterFam.fam)
 ]
 
 structure OAcc (σ : Type) where
